@@ -236,6 +236,11 @@ func init() {
 					}
 				}
 			}
+			for _, t := range []int{dyn.Int8, dyn.Float64} { // many channels
+				for _, C := range []int{9, 17, 65} {
+					bigJobs = append(bigJobs, job{t, root{C, 1, 3, 0}}, job{t, root{C, 3, 3, 0}})
+				}
+			}
 			c.ParallelFor(len(bigJobs), func(i int) {
 				j := bigJobs[i]
 				K := j.r.K
